@@ -199,6 +199,10 @@ func check(repo, verif, id, tier string) int {
 		code := 0
 		for _, k := range rep.Known {
 			fmt.Printf("KNOWN-FINDING: property=%s %s [%s]\n", id, k.Finding.What, k.Finding.Signature)
+			// a replay file for the listed finding, so that it can be re-executed
+			if path, err := harness.WriteReplay(filepath.Join(verif, "known_replays"), k.Case); err == nil {
+				fmt.Printf("  replay of the known finding: %s\n", path)
+			}
 		}
 		var replayPaths []string
 		for _, v := range rep.Violations {
